@@ -11,6 +11,7 @@ Space (complete enumeration, no sampling), every document generated over the ind
           payload of PAYLOADS (padded to the element's minimum length, left alone where it exceeds the
           maximum length) x DELIMS
   notused per map one document in which every element / component the map marks not-used carries a value
+  trailing per map one document written with every trailing empty element / component separator kept
 
 Oracle (written from the statement, reads only mc.grammar / mc.gen data, never pyx12's verdict):
   the XML parses strictly (xml.etree); the i-th <seg> is the i-th source segment; its chain of <loop id>
@@ -86,6 +87,8 @@ def plan_names(entry, family, thorough):
             yield str(i)
     elif family == 'notused':
         yield 'N'
+    elif family == 'trailing':
+        yield 'T'
 
 
 def plan_by_name(entry, name):
@@ -172,6 +175,14 @@ def notused_doc(entry):
                 while len(s) <= c.seq:
                     s.append('')
                 s[c.seq] = v; n += 1
+            elif c.kind == 'comp' and c.usage == 'N' and c.children:
+                try:
+                    v = gen.type_value(c.children[0].de)
+                except (gen.Ungeneratable, KeyError):
+                    continue
+                while len(s) <= c.seq:
+                    s.append('')
+                s[c.seq] = [v]; n += 1
             elif c.kind == 'comp' and c.usage != 'N' and c.seq < len(s) and isinstance(s[c.seq], list):
                 for k, x in enumerate(c.children):
                     if x.usage == 'N':
@@ -185,6 +196,23 @@ def notused_doc(entry):
     return d, n
 
 
+def untrimmed_text(doc, seg_t, ele_t, sub_t):
+    """every segment written with all the element separators of its definition and every present composite with
+    all its component separators (trailing empties kept)"""
+    out = []
+    for s, node in zip(doc.segs, doc.nodes):
+        parts = [s[0]]
+        for c in node.children:
+            v = s[c.seq] if c.seq < len(s) else ''
+            if isinstance(v, list):
+                v = sub_t.join(list(v) + [''] * (len(c.children) - len(v)))
+            parts.append(v)
+        if s[0] == 'ISA':
+            parts[16] = sub_t
+        out.append(ele_t.join(parts) + seg_t)
+    return ''.join(out)
+
+
 def make_doc(case):
     """-> (Doc or None, skip reason, info)"""
     entry = entry_of(case['map'])
@@ -195,6 +223,9 @@ def make_doc(case):
             d = gen.build(entry, plan_by_name(entry, case['plan']))
         elif fam == 'payload':
             d, info = payload_doc(entry, PAYLOADS[int(case['plan'])])
+        elif fam == 'trailing':
+            d = base_doc(entry)
+            info = len(d.segs) if d is not None else 0
         else:
             d, info = notused_doc(entry)
     except gen.Ungeneratable:
@@ -453,7 +484,10 @@ def judge(case):
             for x in (v if isinstance(v, list) else [v]):
                 if any(ch in bad for ch in x):
                     return [], 'data contains a source or output delimiter', [], 0
-    text = doc.text(seg_t, ele_t, sub_t, eol='\n' if case.get('delims', 0) == 0 else '')
+    if case['family'] == 'trailing':
+        text = untrimmed_text(doc, seg_t, ele_t, sub_t)
+    else:
+        text = doc.text(seg_t, ele_t, sub_t, eol='\n' if case.get('delims', 0) == 0 else '')
     o = pipe.run(text, sinks=('xml',))
     V = []
     if o.exc:
@@ -505,8 +539,8 @@ def work(shard):
             P.counters['skipped: ' + skip] += 1
             continue
         P.counters['documents judged: ' + family] += 1
-        if family in ('payload', 'notused'):
-            P.counters['elements carrying a %s value' % family] += info
+        if family in ('payload', 'notused', 'trailing'):
+            P.counters[('elements carrying a %s value' % family) if family != 'trailing' else 'segments written untrimmed'] += info
         for l in labels:
             P.out('%s|%s' % (family, l))
         for k, m in V:
@@ -528,6 +562,7 @@ def run(R):
         for dl in range(len(DELIMS)):
             shards.append((f, 'payload', dl, 0, 1, R.thorough))
             shards.append((f, 'notused', dl, 0, 1, R.thorough))
+            shards.append((f, 'trailing', dl, 0, 1, R.thorough))
         if R.thorough:
             n = 48 if f.startswith('837') else (12 if big else 2)
             for p in range(n):
@@ -540,7 +575,8 @@ def run(R):
                  'gen.plans_d1 documents of kinds %s in ~*: delimiters' % ', '.join(QUICK_KINDS)),
         'pair': 'every pair of loop-level include:/repeat2: deviations per map' if R.thorough else 'not run',
         'payload': '%d payloads %r on all free-text AN elements of one all-filled document per map x %d delimiter sets %r' % (len(PAYLOADS), PAYLOADS, len(DELIMS), DELIMS),
-        'notused': 'one all-filled document per map with every not-used element / component given a value x %d delimiter sets' % len(DELIMS),
+        'notused': 'one all-filled document per map with every not-used element / composite / component given a value x %d delimiter sets' % len(DELIMS),
+        'trailing': 'one all-filled document per map written with all trailing empty elements and components of the definitions x %d delimiter sets' % len(DELIMS),
     }
     R.assumptions = [
         'structural validity is decided by the independent grammar: gen.selfcheck passes and the matcher (callback) reports exactly the generating nodes; other documents are skipped and counted (C02/C07 domain)',
